@@ -35,6 +35,7 @@ def parseDecl (j : Json) : R Decl := do
   | "value" => return .value (← fldStr j "v") false none
   | "method" => return .value "null" true (← optS (← fld j "optional"))
   | "none" => return .none
+  | "prop" => return .prop ⟨← optS (← fld j "value"), ← fldStr j "default", ← fldStr j "extname", ← fldStr j "export"⟩
   | k => throw s!"bad decl {k}"
 
 def parseOp (j : Json) : R (Bool × Op) := do
@@ -52,7 +53,11 @@ def parseOp (j : Json) : R (Bool × Op) := do
       | [n, d] => return (← n.getStr?, ← parseProps d)
       | _ => throw "bad cfg pair")
     return (ok, .inst (← fldStr j "name") (← fldStr j "cls") cfg)
-  | "setprop" => return (ok, .setprop (← fldStr j "inst") (← fldStr j "par") (← fldStr j "key") (← fldStr j "val"))
+  | "setprop" =>
+    let path ← match j.getObjVal? "path" with
+      | .ok pj => (← arr pj).mapM (fun x => x.getNat?)
+      | .error _ => pure []
+    return (ok, .setprop (← fldStr j "inst") (← fldStr j "par") path (← fldStr j "key") (← fldStr j "val"))
   | "enum" => return (ok, .addEnum (← fldStr j "inst") (← fldStr j "par") (← fldStr j "member"))
   | k => throw s!"bad op {k}"
 
@@ -71,10 +76,22 @@ def jview (nv : String × Option AccView) : Json :=
   match nv.2 with
   | none => jarr [Json.str nv.1, Json.null]
   | some v =>
-    let dinfo := if v.isCmd then jarr [Json.str "command", jarr [], jarr [jopt jtree v.tree, Json.null], Json.null]
-                 else jopt jtree v.tree
+    let shown := v.tree.map DTree.exported
+    let dinfo := if v.isCmd then jarr [Json.str "command", jarr [], jarr [jopt jtree shown, Json.null], Json.null]
+                 else jopt jtree shown
     jarr [Json.str nv.1, Json.mkObj [("cmd", Json.bool v.isCmd), ("props", jprops (exportView tables v)),
       ("datainfo", dinfo), ("export", Json.str ((v.props.get? "export").getD "true"))]]
+
+def jmview (isInst : Bool) (nv : String × MView) : Json :=
+  match nv.2.prop with
+  | none => jarr [Json.str nv.1, Json.null]
+  | some p =>
+    if isInst then jarr [Json.str nv.1, Json.str (nv.2.value.getD p.dflt)]
+    else jarr [Json.str nv.1, jopt Json.str p.value, Json.str p.dflt, Json.str p.extname, Json.str p.exported]
+
+def isInstOwner : Owner → Bool
+  | .inst _ => true
+  | _ => false
 
 def ownerKey : Owner → String
   | .cls n => "cls:" ++ n
@@ -83,19 +100,27 @@ def ownerKey : Owner → String
 def owners (w : World) : List Owner :=
   w.classes.map (fun c => Owner.cls c.pure.decl.name) ++ w.insts.map (fun i => Owner.inst i.name)
 
-partial def treePaths (pfx : String) : DTree → List String
+/-- (identity inside the datatype object, path where the harness sees it): the one member of a `LimitsType` is
+seen at `/0` and at `/1` -/
+partial def treePaths (ident pfx : String) : DTree → List (String × String)
   | .node k _ c _ =>
-    pfx :: (if k == "enum" then [pfx ++ "/enum"] else
-      (c.zipIdx.flatMap (fun ci => treePaths (pfx ++ "/" ++ toString ci.2) ci.1)))
+    (ident, pfx) :: (if k == "enum" then [(ident ++ "/enum", pfx ++ "/enum")]
+      else if k == "limits" then
+        (c.take 1).flatMap (fun ch => treePaths (ident ++ "/0") (pfx ++ "/0") ch ++ treePaths (ident ++ "/0") (pfx ++ "/1") ch)
+      else
+      (c.zipIdx.flatMap (fun ci => treePaths (ident ++ "/" ++ toString ci.2) (pfx ++ "/" ++ toString ci.2) ci.1)))
 
 /-- (object identity, where it is seen) for everything the harness takes the `id()` of -/
+def propIdentities (w : World) : List ((Nat × String) × String) :=
+  w.classes.flatMap (fun c => c.propDict.map (fun nr => ((nr.2, ""), "cls:" ++ c.pure.decl.name ++ ":@prop/" ++ nr.1)))
+
 def identities (w : World) : List ((Nat × String) × String) :=
-  (owners w).flatMap (fun o => (w.accessiblesOf o).flatMap (fun nr =>
+  propIdentities w ++ (owners w).flatMap (fun o => (w.accessiblesOf o).flatMap (fun nr =>
     let here := ownerKey o ++ ":" ++ nr.1
     ((nr.2, ""), here) :: match w.heap.accAt nr.2 with
       | some a => match a.dtype with
         | some rd => match w.heap.dtAt rd with
-          | some t => (treePaths "" t).map (fun p => ((rd, p), here ++ "/dt" ++ p))
+          | some t => (treePaths "" "" t).map (fun p => ((rd, p.1), here ++ "/dt" ++ p.2))
           | none => []
         | none => []
       | none => []))
@@ -110,6 +135,8 @@ def partitionOf (w : World) : Json :=
 
 def snapshot (w : World) : Json :=
   Json.mkObj [("dumps", Json.mkObj ((owners w).map (fun o => (ownerKey o, jarr ((describeH w o).map jview))))),
+              ("mdumps", Json.mkObj ((owners w).map (fun o => (ownerKey o, jarr ((describeM w o).map (jmview (isInstOwner o))))))),
+              ("mexport", Json.mkObj ((owners w).map (fun o => (ownerKey o, jprops ((describeM w o).filterMap exportM))))),
               ("part", partitionOf w)]
 
 def parseDumps (j : Json) : R (List (String × String)) := do
